@@ -30,6 +30,11 @@ Mat4T == {<<"Mat4", s, d>> : s \in Bases, d \in Bases}
 Mat3T == {<<"Mat3", s, d>> : s \in {"Model", "World"}, d \in {"Model", "World"}}
 MatPT == {<<"MatP", s>> : s \in Bases}
 Scal == {<<"Angle">>, <<"F32">>}
+\* a user-defined basis tag: a bare marker type without any derived trait (the library's own tags all
+\* derive Debug and Default; nothing may depend on that)
+MatU == {<<"Mat4", "User", "World">>, <<"Mat4", "World", "User">>, <<"Mat4", "User", "User">>}
+VecU == {<<"Vec", "3", "User">>, <<"Vec", "3", "World">>}
+PtU == {<<"Pt", "3", "User">>, <<"Pt", "3", "World">>}
 \* a square array of the given size tagged as a linear map of a space of the given dimension (Model -> World)
 MatRawT == {<<"MatRaw", n, d>> : n \in {"2", "3", "4"}, d \in {"2", "3"}}
 Num(x) == CASE x = "2" -> 2 [] x = "3" -> 3 [] OTHER -> 4
@@ -62,6 +67,12 @@ Programs ==
   \cup {<<op, <<m>>>> : op \in {"Inverse", "Transpose", "Determinant"}, m \in Mat4T \cup MatPT}
   \cup {<<"Apply", <<m, p>>>> : m \in MatPT, p \in {x \in PtT \cup VecT : x[2] = "3"}}
   \cup {<<"ApplyPt", <<m, p>>>> : m \in MatPT, p \in {x \in PtT : x[2] = "3"}}
+  \* the same operations over a user-defined tag
+  \cup {<<op, <<m>>>> : op \in {"Inverse", "Transpose", "Determinant"}, m \in MatU}
+  \cup {<<"Apply", <<m, v>>>> : m \in MatU, v \in VecU}
+  \cup {<<"ApplyPt", <<m, p>>>> : m \in MatU, p \in PtU}
+  \cup {<<op, <<m, n>>>> : op \in {"Compose", "Then"}, m \in MatU, n \in MatU}
+  \cup {<<op, <<a, b>>>> : op \in {"Add", "Sub", "Lerp", "Dot"}, a \in VecU, b \in VecU}
   \* transposing an array too small for the dimension of the map it is tagged with
   \* (rejected when the function is instantiated: seen by a build, not by a type check)
   \cup {<<"TransposeRaw", <<m>>>> : m \in MatRawT}
